@@ -203,7 +203,14 @@ def run_case(desc):
     proj = projlab.Project()
     hintp = projlab.Project()
     try:
-        histories.write_project(proj, h, apps)
+        deps = None
+        if two and h.texts[0].get('app1') and h.texts[0].get('app2') and \
+                rng.random() < 0.5:
+            # a declared order between the two apps' evolutions that differs
+            # from the order of INSTALLED_APPS
+            deps = {'app1': {'e1': {'AFTER_EVOLUTIONS': [('app2', 'e1')]}}}
+            stats['cross_app_dependency'] = 1
+        histories.write_project(proj, h, apps, deps=deps)
         ev = proj.run('evolve_api', version=0, db='base.db')
         stats['processes'] += 1
         if ev.get('driver_error') or not ev['outcome']['ok']:
@@ -250,6 +257,13 @@ def run_case(desc):
             exb = executed_blocks(ex)
             stats['previews_compared'] = 1
             nontrivial = sum(len(v) for v in pv.values()) >= 2
+            # order of the per-app blocks
+            p_order = [a for a in pv if pv[a]]
+            x_order = [a for a in exb if exb[a]]
+            if sorted(p_order) == sorted(x_order) and p_order != x_order:
+                items.append({'type': 'PREVIEW_APP_ORDER_DIFFERS',
+                              'preview': p_order, 'executed': x_order,
+                              'declared_dependency': bool(deps)})
             for app in sorted(set(pv) | set(exb)):
                 p, x = pv.get(app, []), exb.get(app, [])
                 stats['statements_compared'] = stats.get(
